@@ -150,11 +150,42 @@ def _noise(case, noise=None):
     return np.array(noise, dtype=np.float64) / case['noise_scale']
 
 
+def kind_of(case, which):
+    """label kind of the condition ('cond') or fold ('fold') descriptor; cases written before
+    the kinds existed carry none and are classified by their python values"""
+    k = case.get(which + '_kind')
+    if k:
+        return k
+    vals = case['labels'] if which == 'cond' else (case['folds'] or [])
+    if any(isinstance(v, bool) for v in vals):
+        return 'bool'
+    if any(isinstance(v, str) for v in vals):
+        return 'str'
+    if any(isinstance(v, float) for v in vals):
+        return 'float'
+    return 'int'
+
+
+def _descriptor(values, kind):
+    """the descriptor as a user would pass it for that kind of label"""
+    if kind == 'float':
+        return np.array(values, dtype=np.float64)
+    if kind == 'float32':
+        return np.array(values, dtype=np.float32)
+    if kind == 'bool':
+        return np.array(values, dtype=bool)
+    if kind == 'npstr':
+        return [np.str_(v) for v in values]          # a plain list of numpy strings
+    if kind in ('int', 'negint', 'bigint'):
+        return np.array(values, dtype=np.int64)
+    return np.array(values)
+
+
 def _dataset(case, X):
     from rsatoolbox.data import Dataset
-    obs = {'cond': np.array(case['labels'])}
+    obs = {'cond': _descriptor(case['labels'], kind_of(case, 'cond'))}
     if case['folds'] is not None:
-        obs['fold'] = np.array(case['folds'])
+        obs['fold'] = _descriptor(case['folds'], kind_of(case, 'fold'))
     return Dataset(X, obs_descriptors=obs)
 
 
